@@ -50,6 +50,7 @@ pub fn replay(path: &Path) -> i32 {
             }
         }
         "c13" => checks::c13::replay(r),
+        "c11" => checks::c11::replay(r),
         other => {
             println!("no dedicated replayer for '{}': re-run the check with VERIF_SEED={} (the witness file holds the full case description)", other, v["seed"]);
             0
